@@ -1050,6 +1050,9 @@ YR_API char* yr_compiler_get_error_message(
   case ERROR_REGULAR_EXPRESSION_TOO_COMPLEX:
     snprintf(buffer, buffer_size, "regular expression is too complex");
     break;
+  case ERROR_INVALID_OPERAND:
+    snprintf(buffer, buffer_size, "invalid operand: negative shift count");
+    break;
   case ERROR_TOO_MANY_STRINGS:
     yr_get_configuration_uint32(
         YR_CONFIG_MAX_STRINGS_PER_RULE, &max_strings_per_rule);
